@@ -127,6 +127,32 @@ def rule_validators(repo: Repo, rid: str = "C05.validators", cls: str = "Problem
             r.ok({"function": f.qn, "every_argument_looked_up_in": "objects + constants (KeyError when undeclared)"})
         else:
             r.fail(Finding(rid, f, "missing:object-lookup", "the arguments are not looked up in problem objects + domain constants: undeclared objects are accepted"))
+        # (b') the i-th argument is compared with the i-th declared type: the argument types must not be funnelled through a dict
+        # keyed by the argument names (a repeated argument collapses and the remaining positions are compared with the wrong type / not at all)
+        r.site(f"{f.qn} [type pairing]")
+        by_name = []
+        for c in L.calls_in(f.node):
+            if callee_name(c) == "is_sub_type" and isinstance(c.func, ast.Attribute):
+                try:
+                    tr = p.trace(c.func.value, keys=True)
+                except KeyError:
+                    continue
+                for x in tr:
+                    if "askey" in x:
+                        continue
+                    for i, st in enumerate(x[:-1]):
+                        if (st == "in:value" or st.startswith("in:setval@")) and x[i + 1] == "call:values" and "attr:type" in x[:i]:
+                            # the dict's keys: the argument tokens?
+                            keyed = any(("in:key" in y or any(s_.startswith("in:setkey@") for s_ in y)) and y[0].startswith("param:") and
+                                        any(s_.startswith("slice:1") for s_ in y) for y in p.trace(c.func.value, keys=False) | tr)
+                            by_name.append((c, keyed))
+        if any(k for _c, k in by_name) or by_name:
+            c0 = by_name[0][0]
+            r.fail(Finding(rid, f, "types-by-name", f"{unparse(c0, 60)}: the argument types are collected in a dict keyed by the argument names and read back with "
+                           f".values(): with a repeated argument, e.g. (link n1 n1 t1), the positions shift and a well-typed fact is rejected / an "
+                           f"ill-typed one accepted", node=c0))
+        else:
+            r.ok({"function": f.qn, "argument_types": "compared position by position"})
         if is_fluent:
             r.site(f"{f.qn} [function name]")
             def _functions_map(e) -> bool:
@@ -147,7 +173,7 @@ def rule_validators(repo: Repo, rid: str = "C05.validators", cls: str = "Problem
             else:
                 r.fail(Finding(rid, f, "missing:function-name-check", "an undeclared function name is not rejected"))
     r.notes.append("assert statements count as raising checks; under `python -O` they are compiled away")
-    r.require_sites(7)
+    r.require_sites(9)
     return r
 
 
@@ -302,6 +328,32 @@ def rule_value(repo: Repo, rid: str = "C05.value", spec: str = "ProblemParser.pa
         r.ok({"value": "float(expression[2])", "fluent": "parse_grounded_numeric_fluent(expression[1])"})
     else:
         r.fail(Finding(rid, f, "fluent-value", "the fluent value does not come from float(<third item>) / the fluent from the second item"))
+    # the only judge of the value text is float(): an extra syntactic gate in front of it rejects values that float() reads (1e3, 2.5e-1, inf)
+    r.site(f.qn + " [value gate]")
+    g = C.cfg_of(f.node)
+    gates = []
+    for n in g.nodes():
+        st = g.stmt[n]
+        if isinstance(st, (ast.If, ast.Assert)):
+            about_value = False
+            for sub in ast.walk(st.test):
+                if isinstance(sub, (ast.Name, ast.Subscript)) and isinstance(getattr(sub, "ctx", None), ast.Load):
+                    try:
+                        tr = p.trace(sub)
+                    except KeyError:
+                        continue
+                    if any(x[0].startswith("param:") and L.has_pos(x, 2) and "arg0:float" not in x and "arg0:len" not in x for x in tr):
+                        about_value = True
+            if about_value:
+                t_ = C.reach_under(g, lambda e, st=st: True if e is st.test else None, start=n)
+                e_ = C.reach_under(g, lambda e, st=st: False if e is st.test else None, start=n)
+                if isinstance(st, ast.Assert) or any(g.kind[x] == "raise" for x in t_ - e_) or any(g.kind[x] == "raise" for x in e_ - t_):
+                    gates.append(st)
+    if gates:
+        r.fail(Finding(rid, f, "value-gate", f"{unparse(gates[0].test, 60)} decides whether the value text is accepted before float() sees it: "
+                       f"values that float() reads (exponent notation such as 1e3) are rejected", node=gates[0]))
+    else:
+        r.ok({"value_text_judged_by": "float() only"})
     r.site(f.qn + " [store]")
     stores = [n for n in ast.walk(f.node) if isinstance(n, ast.Assign) and any(isinstance(t, ast.Subscript) and _into(p, t.value, store_attr) for t in n.targets)]
     oks = False
@@ -315,7 +367,7 @@ def rule_value(repo: Repo, rid: str = "C05.value", spec: str = "ProblemParser.pa
         r.ok({"stored_under": "fluent.untyped_representation"})
     else:
         r.fail(Finding(rid, f, "fluent-store", f"the parsed fluent is not stored in {store_attr} under its own ground name"))
-    r.require_sites(2)
+    r.require_sites(3)
     return r
 
 
